@@ -74,7 +74,7 @@ def pos_of(spans, data, idx):
 
 
 def path_matches(q, o, spans, data, ntok, raw=False):
-    devs, v, why, warg, bad, irr, tree, loaded = q
+    devs, v, why, warg, bad, irr, tree, loaded = q[:8]
     if v in ("exc",):
         return o["cls"] == "raise"
     if v == "hang":
@@ -102,10 +102,18 @@ def path_matches(q, o, spans, data, ntok, raw=False):
     return False
 
 
+POISON = (b'require ["fileinto","reject","envelope","body","vacation","vacation-seconds","variables","date",'
+          b'"imap4flags","copy","mailbox","relational","regex","xext"];\n# Filter: stale\n# Description: stale\nkeep')
+
+
 def judge(tokens, outs, layout, suffix, p, nrunning):
     """render + parse + judge_obs"""
     from . import sieve_impl as I
     data, spans = R.render(tokens, layout, suffix)
+    if len(data) % 2:
+        # the same parser object has just read (and rejected) a script that required every extension and
+        # left comments pending: nothing of it may influence this parse
+        p.parse(POISON)
     o = I.run_parse(p, data, rt=_ctx.get("roundtrip", False))
     failed = judge_obs(o, data, spans, len(tokens), outs)
     if _ctx.get("named") and o["verdict"] is True:
@@ -124,7 +132,8 @@ def judge_obs(o, data, spans, ntok, outs, lexnote=(), raw=False):
     ref = [q for q in outs if not q[0]]
     assert len(ref) == 1, outs
     ref = ref[0]
-    devs, v, why, warg, bad, irr, tree, loaded = ref
+    devs, v, why, warg, bad, irr, tree, loaded = ref[:8]
+    irrat = ref[8] if len(ref) > 8 else 0
     res = {}
     nlf = data.count(b"\n")
     # ---- C02: totality and shape
@@ -177,6 +186,14 @@ def judge_obs(o, data, spans, ntok, outs, lexnote=(), raw=False):
                     res["C18"] = "%s: want %r got %r" % (why, want, ep)
             elif (ep[0], ep[1]) < (want[0], want[1]):
                 res["C18"] = "%s: reported %r before first invalid token at %r" % (why, ep, want)
+    # ---- C18 for irregular (dontcare) inputs: the prefix before the first irregularity is regular and viable,
+    # so no error may be reported before that token
+    if o["cls"] == "ret" and o["verdict"] is False and irr and irrat:
+        ep = o["error_pos"]
+        first = min(irrat, bad) if (v == "rej" and bad) else irrat
+        want = pos_of(spans, data, first)
+        if isinstance(ep, tuple) and len(ep) == 3 and (ep[0], ep[1]) < (want[0], want[1]):
+            res["C18"] = "reported %r before the first token that can make the script invalid at %r" % (ep, want)
     # ---- C04: print/parse round trip of what was accepted
     if o.get("rt") and o["rt"].get("problem") and not irr and v == "acc":
         res["C04"] = o["rt"]["problem"] + " | " + o["rt"].get("text", "")[-120:]
